@@ -618,6 +618,44 @@ def main():
             continue
         run.count("lazy.outcome", "ok")
         run.count("lazy.lock", lock)
+        # independent probe: does the PLAIN out-of-place call (no context manager) already modify its source?  That is a defect of
+        # the call itself (C02: lazy flatten / unflatten assign the dim names to a result built from the source's own members), not
+        # of the write-back; its consequence for this property (the original after the block is not the inverse image) gets its own
+        # fingerprint naming the argument class and the modified field, and the pure-call model is not compared on such a case.
+        src_mod = None
+        if op1[0] not in ("lock_", "unlock_"):
+            try:
+                with L.time_limit(30.0):
+                    probe = L.build_lazy(st, lock, lsd)
+                    m0 = L.meta(probe)
+                    L.apply_spelled(probe, op1[0], *sp1)
+                    m1 = L.meta(probe)
+                fields = [f for f, a_, b_ in zip(("shape", "names", "keys", "locked"), m0, m1) if a_ != b_]
+                if fields:
+                    src_mod = "+".join(fields)
+            except Exception as e:  # noqa: BLE001
+                L.slow_is_infra(e)
+        if src_mod:
+            run.count("lazy.plain_call_modifies_source", f"{op1[0]}:{src_mod}")
+            argcls = {"unflatten": lambda: "size-one-first" if list(op1[2])[:1] == [1] else "general",
+                      "flatten": lambda: "single-dim" if op1[1] == op1[2] else "general"}.get(op1[0], lambda: "general")()
+            try:
+                was = ref.is_locked
+                yr = L.apply_spelled(ref, op1[0], *sp1)
+                for j, e in enumerate(edits):
+                    L.do_edit(yr, e, j)
+                L.write_back(ref, op1, yr, was)
+                bad = L.same_td(lz.to_tensordict(), ref.to_tensordict())
+            except Exception as e:  # noqa: BLE001
+                L.slow_is_infra(e)
+                run.count("lazy.reference_failed", type(e).__name__)
+                continue
+            if bad:
+                run.oracle_fail("ctx_lazy", case, f"the plain call {op1[0]} already modifies its lazy source ({src_mod}); after the block the original "
+                                f"differs from the by-hand inverse: {bad}", f"lazy:{op1[0]}:{argcls}:source-modified-by-plain-call:{src_mod}")
+            else:
+                run.oracle_ok("ctx_lazy")
+            continue
         # the metadata model is the same for a lazy original: `withBlock` on the state the stack represents
         ml = parse_sx(drv.ask(model_lines(st, op1[0], sp1[0], sp1[1], edits)))
         run.corr("with-lazy:" + op1[0], case, ["ok", L.meta(lz)], ["err", ml[1]] if ml[0] == "err" else ["ok", L.dec_state(ml[1])])
